@@ -3,6 +3,7 @@ import Uom.Model.Coef
 import Uom.Proofs.FlConvIdentity
 import Uom.Gen.Table
 import Uom.Gen.Names
+import Uom.Proofs.BodyEq.Trig
 /-!
 # C18 — angle and ratio functions act on the dimensionless magnitude, whatever the unit
 
@@ -86,5 +87,43 @@ theorem sphere :
     readIn b32 Gen.q_solid_angle Gen.N.spat (Fl.mul b32 (Fl.ofNat b32 4) pi32) = some 0x3f800000 ∧
     readIn b64 Gen.q_solid_angle Gen.N.steradian (Fl.mul b64 (Fl.ofNat b64 4) pi64) = some 0x402921fb54442d18 := by
   decide +kernel
+
+/-! ### tie to the source: the function bodies regenerated from /repo/src on this run
+
+`Gen.Body.*` below is what the translator read from the Rust source just now; `Body.run` evaluates it
+over any storage type.  These theorems state the property's code path *for the regenerated bodies*:
+they fail to check as soon as the source computes something else. -/
+section SourceTie
+open Uom.Body Uom.Gen.Body
+
+/-- trigonometric functions of an angle apply the storage type's function to the *stored* value (radians
+    in every base-unit set: the angle has no base-unit dependence) and wrap the result `into()` a ratio;
+    inverse functions and `atan2` apply it to the stored value(s) and construct `Angle::new::<radian>`;
+    `exp`, `ln`, … construct `Ratio::new::<ratio>` -/
+theorem src_angle_ratio (N : NumTy) (env : Env N) (a b : N.S.V) :
+    run N env si_angle_inherent_Angle_sin [argQ a] = env.fwd m_into [env.fwd m_sin [argV a]] ∧
+    run N env si_angle_inherent_Angle_cos [argQ a] = env.fwd m_into [env.fwd m_cos [argV a]] ∧
+    run N env si_angle_inherent_Angle_tan [argQ a] = env.fwd m_into [env.fwd m_tan [argV a]] ∧
+    run N env si_angle_inherent_Angle_sinh [argQ a] = env.fwd m_into [env.fwd m_sinh [argV a]] ∧
+    run N env si_angle_inherent_Angle_cosh [argQ a] = env.fwd m_into [env.fwd m_cosh [argV a]] ∧
+    run N env si_angle_inherent_Angle_tanh [argQ a] = env.fwd m_into [env.fwd m_tanh [argV a]] ∧
+    run N env si_ratio_inherent_Ratio_asin [argQ a] = env.ext f_Angle_new_radian [env.fwd m_asin [argV a]] ∧
+    run N env si_ratio_inherent_Ratio_acos [argQ a] = env.ext f_Angle_new_radian [env.fwd m_acos [argV a]] ∧
+    run N env si_ratio_inherent_Ratio_atan [argQ a] = env.ext f_Angle_new_radian [env.fwd m_atan [argV a]] ∧
+    run N env si_ratio_inherent_Ratio_asinh [argQ a] = env.ext f_Angle_new_radian [env.fwd m_asinh [argV a]] ∧
+    run N env si_ratio_inherent_Ratio_acosh [argQ a] = env.ext f_Angle_new_radian [env.fwd m_acosh [argV a]] ∧
+    run N env si_ratio_inherent_Ratio_atanh [argQ a] = env.ext f_Angle_new_radian [env.fwd m_atanh [argV a]] ∧
+    run N env si_angle_inherent_Quantity_atan2 [argQ a, argQ b] = env.ext f_Angle_new_radian [env.fwd m_atan2 [argV a, argV b]] ∧
+    run N env si_ratio_inherent_Ratio_exp [argQ a] = env.ext f_Ratio_new_ratio [env.fwd m_exp [argV a]] ∧
+    run N env si_ratio_inherent_Ratio_exp2 [argQ a] = env.ext f_Ratio_new_ratio [env.fwd m_exp2 [argV a]] ∧
+    run N env si_ratio_inherent_Ratio_ln [argQ a] = env.ext f_Ratio_new_ratio [env.fwd m_ln [argV a]] ∧
+    run N env si_ratio_inherent_Ratio_log2 [argQ a] = env.ext f_Ratio_new_ratio [env.fwd m_log2 [argV a]] ∧
+    run N env si_ratio_inherent_Ratio_log10 [argQ a] = env.ext f_Ratio_new_ratio [env.fwd m_log10 [argV a]] ∧
+    run N env si_ratio_inherent_Ratio_exp_m1 [argQ a] = env.ext f_Ratio_new_ratio [env.fwd m_exp_m1 [argV a]] ∧
+    run N env si_ratio_inherent_Ratio_ln_1p [argQ a] = env.ext f_Ratio_new_ratio [env.fwd m_ln_1p [argV a]] ∧
+    run N env si_ratio_inherent_Ratio_log [argQ a, argV b] = env.ext f_Ratio_new_ratio [env.fwd m_log [argV a, argV b]] :=
+  ⟨rfl, rfl, rfl, rfl, rfl, rfl, rfl, rfl, rfl, rfl, rfl, rfl, rfl, rfl, rfl, rfl, rfl, rfl, rfl, rfl, rfl⟩
+
+end SourceTie
 
 end Uom.C18
